@@ -115,7 +115,8 @@ def handle (j : Json) : Json :=
   let first := rt T fuel s doc
   let second := first.bind (rt T fuel s)
   let normal := normalB T fuel s doc
-  let br := (branches T s doc).eraseDups
+  let br := ((branches T s doc) ++ (if normal then ["spec.normal"] else []) ++
+    (if doc.clean then [] else ["excl.notClean"])).eraseDups
   let excl := (if br.contains "dateTrim" then ["DateExampleTrim"] else [])
   let oj : Res JV → Json := fun o => match o with
     | .ok v => toJson v
